@@ -14,6 +14,10 @@ CHECKS = {
    technique="runtime monitor: strict-validator oracle + recover() + differential over-read detection (three buffer presentations) on exhaustively enumerated short inputs and all single-byte mutants/truncations of valid programs",
    text="Every byte string up to length 3 (thorough; quick a subset covering every in-range opcode), all strings of length 4..6 over an 18-byte alphabet, and every truncation and single-byte substitution of PRNG programs are fed to ParseAll/ToString, the VM's Parse* chain and Vm.Run; a panic, success on input the validator classifies as malformed, or a result that depends on bytes beyond the slice is a violation.",
    note="Trusted: the strict validator. NOOP (opcode 0) and rejection of complete-valid input are don't-care. Vm.Run: runtime-error panics only."),
+ "C16": dict(engine="codec", category="exploration", design="§3 C16",
+   technique="runtime monitor: generated assembly sources (AST printed to text) assembled by asm.Parse, output decoded by an independent decoder and compared with the AST",
+   text="Tens of thousands (quick) to a million (thorough) sources over every opcode, all token classes of the documented grammar, all numeric widths and batch groups are assembled; the emitted bytecode must decode to exactly the instructions written. Half of the sources contain only token classes with no recorded finding so a new break cannot hide behind a known one.",
+   note="Trusted: the harness decoder and the expansion table transcribed from instructions.texi. Known findings (numeric-first lexing, upper-case initial) are listed in KNOWN_FINDINGS.txt by token class."),
 }
 NOT_YET = {}
 ALL = ["C%02d" % i for i in range(1, 21)]
